@@ -17,7 +17,8 @@ RULE = ("A: ALL (version, length) pairs in 0..17 x 0..42 (774, exhaustive) x HRP
         "part (71 symbols), affine-linearity and HRP/length invariance observed on samples, then ALL error patterns of weight "
         "<= 4 decided offline by set intersections (2 388 085 weight-2 syndromes); D: random <=4-symbol substitutions and an "
         "insert/delete/case/charset grammar through the real decoder, differential against the reference decoder; distinct = "
-        "distinct (monitor, case) digests")
+        "distinct (monitor, case) digests"
+        " EXTENSIONS: + foreign printable characters at every position (B3), characters outside 33..126 affixed / after the separator / before the checksum (B4), prefixes related to the expected one, caller edits of returned lists, full (version x length x constant) grid")
 LEVEL_TEXT = ("Codec agreement is exhaustive over (version, length); rejection clauses are exercised by construction; the "
               "error-detection clause is decided for EVERY error pattern of weight <= 4 (both constants and the cross-constant "
               "case) from syndromes computed by the real bech32_polymod, exhaustive given the checksum's affine-linearity, which "
